@@ -607,3 +607,97 @@ fn verif_c06_no_reuse_in_protocols() {
     wl::PRSS_LOG.store(false, std::sync::atomic::Ordering::SeqCst);
     rec.finish();
 }
+
+// ---------------------------------------------------------------------------------------------
+// (3) consumption: how multi-block values are assembled from the blocks that were drawn
+// ---------------------------------------------------------------------------------------------
+//
+// A vectorised or wide value consumes several 128-bit blocks of one (step, index). "Never reused" also has to hold
+// there: every block drawn must feed exactly one lane (element) of the value and no two lanes may share a block. The
+// draw log cannot see that (each block is drawn once either way), so `FromRandom::from_random` is probed directly:
+// replace one source block, look at which lanes of the serialised value change.
+
+fn probe_consumption<T>(rec: &mut Recorder, name: &str, lanes: usize, r: &mut VRng, case: usize)
+where
+    T: crate::protocol::prss::FromRandom + crate::ff::Serializable,
+{
+    use typenum::Unsigned;
+    let blocks = <T as crate::protocol::prss::FromRandom>::SourceLength::USIZE;
+    let size = <T as crate::ff::Serializable>::Size::USIZE;
+    let ser = |v: &T| {
+        let mut buf = GenericArray::<u8, <T as crate::ff::Serializable>::Size>::default();
+        v.serialize(&mut buf);
+        buf.to_vec()
+    };
+    let src: GenericArray<u128, <T as crate::protocol::prss::FromRandom>::SourceLength> = (0..blocks).map(|_| r.u128()).collect();
+    let base = ser(&T::from_random(src.clone()));
+    // lane l occupies bytes [l * size / lanes, (l + 1) * size / lanes); block j belongs to lane j * lanes / blocks for element
+    // arrays, and to the lane(s) of its own 16 bytes for wide boolean arrays (lanes == blocks there)
+    let wide_ba = name.starts_with("BA");
+    let lane_of_byte = |b: usize| if wide_ba { b / 16 } else { b / (size / lanes) };
+    let mut used_by: Vec<std::collections::BTreeSet<usize>> = vec![Default::default(); blocks];
+    for j in 0..blocks {
+        for _ in 0..3 {
+            let mut s2 = src.clone();
+            s2[j] ^= r.u128() | 1;
+            let out = ser(&T::from_random(s2));
+            for (b, (x, y)) in base.iter().zip(out.iter()).enumerate() {
+                if x != y {
+                    used_by[j].insert(lane_of_byte(b));
+                }
+            }
+        }
+    }
+    rec.eval();
+    let mut ok = true;
+    for (j, lanes_hit) in used_by.iter().enumerate() {
+        let own = j * lanes / blocks;
+        let class = if lanes_hit.is_empty() {
+            Some("block_drawn_but_unused")
+        } else if lanes_hit.iter().any(|l| *l != own) {
+            Some("block_feeds_another_lane")
+        } else {
+            None
+        };
+        if let Some(class) = class {
+            ok = false;
+            rec.violation(
+                "a block of a multi-block PRSS value does not feed exactly its own lane",
+                json!({"kind": "block_consumption", "type": name, "class": class}),
+                json!({"case": case, "type": name, "block": j, "blocks": blocks, "lanes": lanes, "own_lane": own, "lanes_that_changed": lanes_hit}),
+            );
+            break;
+        }
+    }
+    if ok {
+        rec.count("multi_block_values_probed");
+        rec.add("blocks_feeding_exactly_their_lane", blocks as u64);
+        rec.distinct(&("consumption", name, case % 8));
+        rec.seen("consumption_types", name);
+    }
+}
+
+#[test]
+fn verif_c06_block_consumption() {
+    use crate::{
+        ff::{Fp32BitPrime, Gf32Bit, boolean_array::{BA144, BA256}, ec_prime_field::Fp25519},
+        secret_sharing::StdArray,
+    };
+    let env = vlib::env();
+    let mut rec = Recorder::new("C06", "verif_c06_block_consumption");
+    let n = env.pick(64, 1024);
+    for case in 0..n {
+        if !env.mine(case) {
+            continue;
+        }
+        let mut r = VRng::new(env.seed ^ 0xc06c, case as u64);
+        probe_consumption::<StdArray<Fp25519, 16>>(&mut rec, "StdArray<Fp25519,16>", 16, &mut r, case);
+        probe_consumption::<StdArray<Fp32BitPrime, 32>>(&mut rec, "StdArray<Fp32BitPrime,32>", 32, &mut r, case);
+        probe_consumption::<StdArray<Gf32Bit, 32>>(&mut rec, "StdArray<Gf32Bit,32>", 32, &mut r, case);
+        probe_consumption::<Fp25519>(&mut rec, "Fp25519", 1, &mut r, case);
+        probe_consumption::<BA256>(&mut rec, "BA256", 2, &mut r, case);
+        probe_consumption::<BA144>(&mut rec, "BA144", 2, &mut r, case);
+    }
+    rec.sample(json!({"probe": "one source block replaced, lanes of the serialised value compared", "types": 6}));
+    rec.finish();
+}
